@@ -1,7 +1,8 @@
 (* C06 -- parse then serialize is lossless and reaches a fixpoint. Statements only. *)
 From Coq Require Import List NArith Arith.
 From Coq Require Import Sorting.Sorted Sorting.Permutation.
-From SonicV Require Import Spec.SortKeys Model.SerRoundTrip Model.Pretty.
+From SonicV Require Import Spec.SortKeys Model.SerRoundTrip Model.Pretty Spec.Ref Model.SerAll.
+From SonicV Require Model.SerClosed.
 Import ListNotations.
 Open Scope N_scope.
 
@@ -31,3 +32,9 @@ Theorem sorted_keys_ascending : forall (A : Type) (key : A -> list N) l, Sorted 
 Proof. exact isort_sorted. Qed.
 Theorem sorted_keys_same_members : forall (A : Type) (key : A -> list N) l, Permutation l (isort A key l).
 Proof. exact isort_perm. Qed.
+
+(* closed form of the fixpoint: what the reference parser reads back from a compact serialization
+   serializes to the same bytes again *)
+Theorem compact_serialization_is_a_fixpoint : forall v, SerClosed.wf (SerClosed.erase v) ->
+  exists v', Ref.ref_text true (ser_compact v) = Some (v', 0%nat, length (ser_compact v)) /\ ser_compact v' = ser_compact v.
+Proof. exact SerClosed.ser_compact_fixpoint. Qed.
